@@ -1260,7 +1260,13 @@ func (w *World) implicitContracts() string {
 			if w.canInline(fn) {
 				b.WriteString("//@   inline\n")
 			}
-			b.WriteString("//@   modifies @ast\n//@   frameprops C14 C17\n")
+			// a helper that writes nothing (computed write set empty) gets the read-only frame, so that an
+			// extracted pure helper can be called from functions that may only write fresh memory
+			if mi := w.modInfoOf(fn, map[*ssa.Function]bool{}); !mi.top && len(mi.dynParams) == 0 && len(mi.names) == 0 {
+				b.WriteString("//@   modifies fresh\n//@   frameprops C14 C17\n")
+			} else {
+				b.WriteString("//@   modifies @ast\n//@   frameprops C14 C17\n")
+			}
 		} else {
 			b.WriteString("//@   props C04\n//@   safety C04\n")
 			if w.canInline(fn) {
